@@ -5,10 +5,10 @@ PROPS["C12"] = dict(
   jobs=[
     dict(name="c12", ll2c_flags=["--null-guard"], **_c12_common,
          shards={"quick": _with(op_shards([B_TET], [3], [OP_DEL_V, OP_DEL_F, OP_DEL_C], per=2) + op_shards([B_TET], [3], [OP_DEL_E], per=2)[:1], {7: 15})
-                        + [d for sub in (10, 12) for d in _with(op_shards([B_TET], [3], [OP_DEL_F, OP_DEL_C], per=2) + op_shards([B_TET], [3], [OP_DEL_E], per=2)[:1], {7: sub})]
+                        + [d for sub in (10, 12) for d in _with(op_shards([B_TET], [3], [OP_DEL_F], per=2)[:1] + op_shards([B_TET], [3], [OP_DEL_C], per=2) + op_shards([B_TET], [3], [OP_DEL_E], per=2)[:1], {7: sub})]
                         + _with(op_shards([B_TET], [0], [OP_DEL_E], per=2)[:1], {7: 15}) + _with(op_shards([B_TET], [1], [OP_DEL_E], per=2)[:2], {4: OP_DEL_F, 5: 0, 7: 10})
-                        + _with(op_shards([B_LOWDIM], [0], [OP_ADD_E, OP_ADD_E_DUP], per=2)[:2], {7: 9}) + _with(op_shards([B_LOWDIM], [1], [OP_ADD_V, OP_GC, OP_CLEAR], per=2), {7: 15}),
-                 "thorough": [d for sub in (15, 7, 9, 10, 12, 11, 13, 14) for md in (0, 1, 3) for d in _with(op_shards([B_TET], [md], _DELS, per=2), {7: sub})]
+                        + _with(op_shards([B_LOWDIM], [0], [OP_ADD_E], per=2)[:1], {7: 9}),
+                 "thorough": _with(op_shards([B_LOWDIM], [1], [OP_ADD_V, OP_GC, OP_CLEAR], per=2), {7: 15}) + [d for sub in (15, 7, 9, 10, 12, 11, 13, 14) for md in (0, 1, 3) for d in _with(op_shards([B_TET], [md], _DELS, per=2), {7: sub})]
                         + [d for sub in (15, 10, 12) for d in _with(op_shards([B_TET2_FACE], [3], _DELS, per=2), {7: sub})]
                         + [d for sub in (15, 9) for d in _with(op_shards([B_LOWDIM], [0], [OP_ADD_E, OP_ADD_E_DUP], per=2), {7: sub})]},
          bounds="differential (also after a deferred pre-deletion): fully enabled twin vs. mesh with a subset of {vertex, edge, face} bottom-up incidences disabled (before or after the base is built); one operation (delete_*, add_edge, add_vertex, "
